@@ -430,14 +430,23 @@ func Explore(t *testing.T, cfg *Config, res *vk.Result, deadline time.Time) {
 		sc.Bound = strings.Replace(sc.Bound, "preemptions", "scheduling deviations from the default scheduler (delay bounding: also non-preempting switches count)", 1)
 		sc.Bound = strings.Replace(sc.Bound, "deviations (preemptions,", "deviations (any departure from the default scheduler choice,", 1)
 	}
+	// A pending execution is "the parent's choices up to node i, then alt": children share
+	// the parent's choice slice, so the frontier of a deep level costs ~40 bytes per entry
+	// instead of one copied prefix each (the level-order frontier of a preemption-bounded
+	// scenario with hundreds of points holds millions of entries).
 	type item struct {
-		prefix []int
-		cost   int // preemptions (and data choices when they share the budget)
-		ccost  int // data choices under a separate ChoiceBound
+		base   []int // choices of the parent execution (shared, read-only)
+		at     int   // the child follows base[:at] ...
+		alt    int   // ... and then takes alt (at < 0: the root, empty prefix)
+		prefix []int // materialised on pop
+		cost   int   // preemptions (and data choices when they share the budget)
+		ccost  int   // data choices under a separate ChoiceBound
 	}
+	const maxPending = 6_000_000 // hard cap on frontier entries (~250 MB); beyond it the deepest level is dropped
 	// Iterative deviation bounding: every execution with d deviations is run before any
 	// with d+1, so that a budget cut loses only the deepest level.
-	levels := [][]item{{{nil, 0, 0}}}
+	levels := [][]item{{{at: -1}}}
+	dropped := 0
 	pending := func() int {
 		n := 0
 		for _, l := range levels {
@@ -450,6 +459,10 @@ func Explore(t *testing.T, cfg *Config, res *vk.Result, deadline time.Time) {
 	reported := map[string]bool{}
 	diverged := 0
 	defer func() {
+		if dropped > 0 {
+			sc.Exhaustive = false
+			sc.Note = strings.TrimSpace(sc.Note + fmt.Sprintf(" %d subtrees of the deepest level not queued (frontier cap)", dropped))
+		}
 		if diverged > 0 {
 			sc.Note = strings.TrimSpace(sc.Note + fmt.Sprintf(" %d subtrees skipped because their prefix could not be replayed (nondeterminism inside perkeep that the scheduler does not own)", diverged))
 		}
@@ -461,6 +474,10 @@ func Explore(t *testing.T, cfg *Config, res *vk.Result, deadline time.Time) {
 		}
 		it := levels[lv][len(levels[lv])-1]
 		levels[lv] = levels[lv][:len(levels[lv])-1]
+		if it.at >= 0 {
+			it.prefix = append(append(make([]int, 0, it.at+1), it.base[:it.at]...), it.alt)
+			it.base = nil
+		}
 		if time.Now().After(deadline) || (cfg.MaxExecutions > 0 && execs >= cfg.MaxExecutions) {
 			sc.Exhaustive = false
 			sc.Note = fmt.Sprintf("stopped by budget after %d executions in this shard; all executions with < %d deviations were completed, %d subtrees left unexplored", execs, lv, pending()+1)
@@ -514,6 +531,8 @@ func Explore(t *testing.T, cfg *Config, res *vk.Result, deadline time.Time) {
 		}
 		// children: deviate at every node after the prefix
 		cost := it.cost
+		base := choices(r.nodes)
+		npend := pending()
 		for i := len(it.prefix); i < len(r.nodes); i++ {
 			n := r.nodes[i]
 			for alt := n.N - 1; alt >= 1; alt-- {
@@ -535,11 +554,15 @@ func Explore(t *testing.T, cfg *Config, res *vk.Result, deadline time.Time) {
 						continue
 					}
 				}
-				p := append(append([]int{}, choices(r.nodes[:i])...), alt)
+				if npend >= maxPending {
+					dropped++
+					continue
+				}
+				npend++
 				for len(levels) <= c+cc {
 					levels = append(levels, nil)
 				}
-				levels[c+cc] = append(levels[c+cc], item{p, c, cc})
+				levels[c+cc] = append(levels[c+cc], item{base: base, at: i, alt: alt, cost: c, ccost: cc})
 			}
 		}
 		if len(it.prefix) == 0 {
